@@ -290,7 +290,6 @@ func SigScriptsFor(t *rapid.T, tx ref.Tx, idx int) SigProgram {
 		for _, k := range order {
 			unlockOrder = append(unlockOrder, newSlot(k))
 		}
-		desc = "multisig"
 	case "chain":
 		second := 0
 		if nKeys > 1 {
